@@ -22,6 +22,11 @@
 //     before the Lock call, whether the map variables are ever reassigned, and whether getTypeStruct
 //     consults structEmptyMap at all.
 //   - scriptTemplateWriters: functions of package jp that assign to a `.template` field or copy into it.
+//   - recomposerWalkKinds: the reflect kinds named in the `switch ft.Kind()` of the field walk of
+//     alt.(*Recomposer).registerComposer (the container kinds whose element type is registered together
+//     with a struct); recomposerWriters / recomposerLazyCallers: the functions of package alt that
+//     write `.composers[...]`, and those among the callers of registerComposer / registerAnyComposer
+//     that are neither constructors nor Register* methods (registration on the fly during Recompose).
 //
 // It fails loudly on source shapes it cannot read.
 package main
@@ -1250,6 +1255,100 @@ func extractReuse(repo, out string) ([]string, error) {
 	}
 	b.WriteString("/-- functions of package jp that assign to a `.template` field (or an element of it) after construction -/\n")
 	fmt.Fprintf(&b, "def scriptTemplateWriters : List String := %s\n\n", ruLeanList(writers))
+	// the recomposer's registry: which container kinds the field walk of registerComposer follows,
+	// who writes the registry, and who registers on the fly
+	alt := pk["alt"]
+	rc := alt.funcs["Recomposer.registerComposer"]
+	if rc == nil || rc.Body == nil {
+		return nil, fmt.Errorf("reuse: alt.(*Recomposer).registerComposer not found")
+	}
+	var walkKinds []string
+	foundWalk := false
+	ast.Inspect(rc.Body, func(n ast.Node) bool {
+		sw, ok := n.(*ast.SwitchStmt)
+		if !ok || sw.Tag == nil || !strings.HasSuffix(alt.src(sw.Tag), ".Kind()") {
+			return true
+		}
+		// the walk's switch is the one inside the loop over the fields whose clause takes the element type
+		takesElem := false
+		ast.Inspect(sw.Body, func(m ast.Node) bool {
+			if ce, ok := m.(*ast.CallExpr); ok {
+				if se, ok := ce.Fun.(*ast.SelectorExpr); ok && se.Sel.Name == "Elem" {
+					takesElem = true
+				}
+			}
+			return true
+		})
+		if !takesElem {
+			return true
+		}
+		foundWalk = true
+		for _, c := range sw.Body.List {
+			cc := c.(*ast.CaseClause)
+			for _, l := range cc.List {
+				se, ok := l.(*ast.SelectorExpr)
+				if !ok {
+					continue
+				}
+				if id, ok := se.X.(*ast.Ident); ok && id.Name == "reflect" {
+					walkKinds = append(walkKinds, se.Sel.Name)
+				}
+			}
+		}
+		return false
+	})
+	if !foundWalk {
+		return nil, fmt.Errorf("reuse: the field walk (switch on the field kind taking Elem()) of alt.(*Recomposer).registerComposer not found")
+	}
+	var regWriters, lazyCallers []string
+	var akeys []string
+	for k := range alt.funcs {
+		akeys = append(akeys, k)
+	}
+	sort.Strings(akeys)
+	for _, k := range akeys {
+		fd := alt.funcs[k]
+		if fd.Body == nil {
+			continue
+		}
+		writes, callsReg := false, false
+		ast.Inspect(fd.Body, func(n ast.Node) bool {
+			switch t := n.(type) {
+			case *ast.AssignStmt:
+				for _, l := range t.Lhs {
+					if ix, ok := l.(*ast.IndexExpr); ok {
+						if se, ok := ix.X.(*ast.SelectorExpr); ok && se.Sel.Name == "composers" {
+							writes = true
+						}
+					}
+				}
+			case *ast.CallExpr:
+				if se, ok := t.Fun.(*ast.SelectorExpr); ok && (se.Sel.Name == "registerComposer" || se.Sel.Name == "registerAnyComposer") {
+					callsReg = true
+				}
+				if id, ok := t.Fun.(*ast.Ident); ok && id.Name == "delete" && len(t.Args) == 2 {
+					if se, ok := t.Args[0].(*ast.SelectorExpr); ok && se.Sel.Name == "composers" {
+						writes = true
+					}
+				}
+			}
+			return true
+		})
+		if writes {
+			regWriters = append(regWriters, "alt."+k)
+		}
+		name := fd.Name.Name
+		if callsReg && !strings.HasPrefix(name, "Register") && !strings.HasPrefix(name, "register") &&
+			!strings.HasPrefix(name, "New") && !strings.HasPrefix(name, "MustNew") {
+			lazyCallers = append(lazyCallers, "alt."+k)
+		}
+	}
+	b.WriteString("/-- reflect kinds named in the `switch ft.Kind()` of the field walk of alt.(*Recomposer).registerComposer -/\n")
+	fmt.Fprintf(&b, "def recomposerWalkKinds : List String := %s\n\n", ruLeanList(walkKinds))
+	b.WriteString("/-- functions of package alt that write `.composers[…]` -/\n")
+	fmt.Fprintf(&b, "def recomposerWriters : List String := %s\n\n", ruLeanList(regWriters))
+	b.WriteString("/-- callers of registerComposer/registerAnyComposer that are neither constructors nor Register* methods:\nregistration on the fly while a value is recomposed -/\n")
+	fmt.Fprintf(&b, "def recomposerLazyCallers : List String := %s\n\n", ruLeanList(lazyCallers))
 	b.WriteString("end OjgVerif.Gen.ReuseFacts\n")
 
 	ch, err := writeIfChanged(filepath.Join(out, "ReuseFacts.lean"), b.String())
